@@ -543,7 +543,7 @@ Definition judge_C11 (c : c11case) : bool * bool * bool :=
 (* ======================= the static checker (C16, C17, C18) ======================= *)
 From NS Require Export Hover Names Typing.
 
-Inductive sev_obs := SevError | SevWarning | SevOther (n : Z).
+Inductive sev_obs := OSevError | OSevWarning | OSevOther (n : Z).
 
 Inductive cobs :=
 | CObsOk (diags : list (diag * sev_obs)) (symbols : list symbol) (errors : nat)
@@ -596,7 +596,7 @@ Definition agree_check (c : ccase) : bool :=
       list_eqb diag_eqb (filter (fun d => negb (is_unused d)) mine) (filter (fun d => negb (is_unused d)) theirs)
       && multiset_eqb diag_eqb (filter is_unused mine) (filter is_unused theirs)
       && forallb (fun ds => match severity_of (d_kind (fst ds)), snd ds with
-                            | Check.SevError, SevError | Check.SevWarning, SevWarning => true | _, _ => false end) ds
+                            | SevError, OSevError | SevWarning, OSevWarning => true | _, _ => false end) ds
       && Nat.eqb (errors_count mine) nerr
       && match symbols_of (cs_declared cs) with Ok ms => multiset_eqb symbol_eqb ms syms | _ => false end
   | Panic _, CObsPanic _ => true
@@ -621,7 +621,7 @@ Definition prop_C16 (c : ccase) : bool :=
       && list_eqb use_eqb (duplicate_decls [] ev) (diags_of_kind (fun k => match k with DDuplicateVariable n => Some n | _ => None end) ds)
       && multiset_eqb use_eqb (unused_decls [] ev) (diags_of_kind (fun k => match k with DUnusedVar n => Some n | _ => None end) ds)
       && (if valid (cc_prog c) && match cc_parse c with [] => true | _ => false end
-          then forallb (fun d : diag * sev_obs => match snd d with SevError => false | _ => true end) ds
+          then forallb (fun d : diag * sev_obs => match snd d with OSevError => false | _ => true end) ds
           else true)
   end.
 
@@ -782,7 +782,7 @@ Definition hover_obs_of (a : analysis) (p : pos) : lobs :=
 
 Definition diags_obs_of (a : analysis) : list (diag * sev_obs) :=
   match a with
-  | Some d => map (fun x => (x, match severity_of (d_kind x) with Check.SevError => SevError | Check.SevWarning => SevWarning end)) (cs_diags (doc_check d))
+  | Some d => map (fun x => (x, match severity_of (d_kind x) with SevError => OSevError | SevWarning => OSevWarning end)) (cs_diags (doc_check d))
   | None => []
   end.
 
@@ -804,7 +804,7 @@ Definition lobs_eqb (a b : lobs) : bool :=
       String.eqb u1 u2
       && list_eqb diag_eqb (filter (fun d => negb (is_unused d)) (map fst d1)) (filter (fun d => negb (is_unused d)) (map fst d2))
       && multiset_eqb diag_eqb (filter is_unused (map fst d1)) (filter is_unused (map fst d2))
-      && list_eqb (fun x y : diag * sev_obs => match snd x, snd y with SevError, SevError | SevWarning, SevWarning => true | _, _ => false end)
+      && list_eqb (fun x y : diag * sev_obs => match snd x, snd y with OSevError, OSevError | OSevWarning, OSevWarning => true | _, _ => false end)
                   (filter (fun d => negb (is_unused (fst d))) d1) (filter (fun d => negb (is_unused (fst d))) d2)
   | LHoverNone, LHoverNone | LDefNone, LDefNone | LNothing, LNothing | LPanic, LPanic => true
   | LHoverVar r1 n1 t1, LHoverVar r2 n2 t2 => range_eqb r1 r2 && String.eqb n1 n2 && String.eqb t1 t2
@@ -1030,3 +1030,70 @@ Definition judge_C13_roundtrip (c : c13rt) : bool * bool * bool :=
    && match rt_plain c with Some s => agree_full s | None => true end,
    prop_C13_roundtrip c,
    match ic_obs (rt_first c) with ObsOk _ _ _ _ => true | _ => false end).
+
+(* ======================= C14 / C15: the parser ======================= *)
+From NS Require Export Parser AstEq Render.
+
+Inductive pobs :=
+| PObs (errors : list (range * string)) (rendering_ok : bool)    (* parser errors; ParseErrorsToString did not panic *)
+| PPanic (msg : string).
+
+Record c14case := mk_c14case {
+  pt_text : list Z;                   (* code points *)
+  pt_lines : list Z;                  (* length of every line, in characters *)
+  pt_blines : list Z;                 (* length of every line, in bytes *)
+  pt_gen_valid : bool;                (* produced by the grammar-complete generator without any mutation *)
+  pt_waive_acceptance : bool;         (* input matches the signature of finding F-D10: only acceptance is waived *)
+  pt_tree : program;                  (* the dumped tree *)
+  pt_obs : pobs }.
+
+Definition pos_inside (lines : list Z) (p : pos) : bool :=
+  let nl := Z.of_nat (List.length lines) in
+  (0 <=? pline p) && (pline p <? Z.max nl 1) && (0 <=? pchar p) && (pchar p <=? nth (Z.to_nat (pline p)) lines 0).
+
+Definition judge_C14 (c : c14case) : bool * bool * bool :=
+  let ref := parse_text (pt_text c) in
+  let nerr := match pt_obs c with PObs es _ => List.length es | PPanic _ => O end in
+  let agree := match ref, pt_obs c with
+               | Parsed p, PObs [] _ => program_eqb p (pt_tree c)
+               | ParsedOutOfRange _ n, PObs es _ => Nat.eqb (List.length es) n
+               | Rejected, PObs (_ :: _) _ => true
+               | _, _ => false
+               end
+               (* the model of Range.ShowOnSource predicts whether rendering panics *)
+               && match pt_obs c with
+                  | PObs es rendering_ok =>
+                      Bool.eqb rendering_ok (forallb (fun e : range * string => show_on_source_ok (pt_blines c) (fst e)) es)
+                  | PPanic _ => true
+                  end in
+  let prop :=
+    match pt_obs c with
+    | PPanic _ => false
+    | PObs es rendering_ok =>
+        rendering_ok
+        && forallb (fun e : range * string => pos_inside (pt_lines c) (rstart (fst e))) es
+        && (if pt_waive_acceptance c then true
+            else
+              (* a valid script is accepted with zero errors, any other input has at least one *)
+              (if pt_gen_valid c then Nat.eqb nerr 0 else true)
+              && match ref with
+                 | Parsed _ | ParsedOutOfRange _ _ => Nat.eqb nerr 0
+                 | Rejected => negb (Nat.eqb nerr 0)
+                 end)
+    end in
+  (agree, prop, negb (pt_gen_valid c)).
+
+Record c15case := mk_c15case {
+  pr_text : list Z;
+  pr_expected : program;              (* the generator's own tree, with the spans recorded by the printer *)
+  pr_parsed : program;                (* the dumped tree *)
+  pr_errors : nat }.
+
+Definition judge_C15 (c : c15case) : bool * bool * bool :=
+  (match parse_text (pr_text c) with
+   | Parsed p => Nat.eqb (pr_errors c) 0 && program_eqb p (pr_parsed c)
+   | ParsedOutOfRange _ n => Nat.eqb (pr_errors c) n
+   | Rejected => negb (Nat.eqb (pr_errors c) 0)
+   end,
+   Nat.eqb (pr_errors c) 0 && program_eqb (pr_expected c) (pr_parsed c),
+   true).
